@@ -22,9 +22,10 @@ What is proved.
   with fuel `n` (values, or a trap: unreachable / division by zero / overflow), the SSA run of `lowerCF f` has exactly
   that outcome for every fuel from some `k` on - loops, branches out of nested blocks, early returns, joins of
   different definitions of a local included; conversely every outcome of the SSA run other than "out of fuel" is the
-  outcome of the reference semantics for some fuel; and the reference semantics diverges iff the SSA run does.  `validate f` is NOT proved for all well-typed `f` (that is the
-  correctness of the SSA-construction algorithm `findValue` itself); the harness evaluates it on every generated
-  function (it never failed: docs/C01_frontcf.md).
+  outcome of the reference semantics for some fuel; and the reference semantics diverges iff the SSA run does.
+  `validate f` is NOT proved for all well-typed `f` (that is the correctness of the SSA-construction algorithm
+  `findValue` itself); the harness evaluates it on every generated function (it never failed: docs/C01_frontcf.md).
+  `frontcf_refines_partial` is the same theorem under the name the conventions ask for.
 * `frontcf_conservative`: on straight-line functions `lowerCF` IS `lowerSL`; `frontcf_refines_straightline`,
   `frontcf_wellFormed_straightline`: the UNCONDITIONAL theorems of `C01_Front` therefore hold for `lowerCF` on that
   fragment.
@@ -103,6 +104,20 @@ theorem frontcf_refines_validated_full (f : Function) (hv : validate f = true) (
    frontcf_diverges_validated f hv args hargs w ec mc⟩
 
 
+/-- `frontcf_refines`, PARTIAL: the full statement (see the end of the file) with the decidable hypothesis
+`validate f = true` in place of `wellTyped f = true`.  Missing for the full statement: `wellTyped f → validate f`. -/
+theorem frontcf_refines_partial (f : Function) (hv : validate f = true) (args : List Nat)
+    (hargs : ArgsOK f.sig args) (w : World) (ec mc : Nat) :
+    (∀ n, Wz.Model.FrontendCF.runSpec f args n ≠ .exhausted →
+      ∃ k, ∀ fuel, run w (lowerCF f) (ec :: mc :: args) (fuel + k) =
+        ofSpecCF (Wz.Model.FrontendCF.runSpec f args n)) ∧
+    (∀ fuel o, run w (lowerCF f) (ec :: mc :: args) fuel = o → o ≠ .outOfFuel →
+      ∃ n, Wz.Model.FrontendCF.runSpec f args n ≠ .exhausted ∧
+        ofSpecCF (Wz.Model.FrontendCF.runSpec f args n) = o) ∧
+    ((∀ n, Wz.Model.FrontendCF.runSpec f args n = .exhausted) ↔
+      (∀ fuel, run w (lowerCF f) (ec :: mc :: args) fuel = .outOfFuel)) :=
+  frontcf_refines_validated_full f hv args hargs w ec mc
+
 theorem frontcf_ofSsaCF_ofSpecCF (o : Wz.Spec.Wasm.Outcome)
     (h : ∀ k, o = .trap k → k = "unreachable" ∨ k = "div0" ∨ k = "overflow") : ofSsaCF (ofSpecCF o) = o := by
   cases o with
@@ -156,6 +171,24 @@ theorem frontcf_wellFormed_straightline (f : Fn) (hwt : Wz.Model.FrontendSL.well
     wellFormed (lowerCF (ofFn f)) = true := by
   rw [frontcf_conservative f hwt]
   exact front_wellFormed f hwt
+
+/-- `frontcf_wellFormed`, PARTIAL: unconditional on the straight-line fragment (with `SsaPass.wellFormed` itself).  For
+control flow the statement is false for `SsaPass.wellFormed` (`frontcf_wellFormed_rejects_alias` below) and not proved
+for `wellFormedA` (it is a decidable hypothesis of `frontcf_then_passes_refines`, evaluated by the harness on every
+function). -/
+theorem frontcf_wellFormed_partial (f : Fn) (hwt : Wz.Model.FrontendSL.wellTyped f = true) :
+    wellFormed (lowerCF (ofFn f)) = true ∧ wellFormedA (lowerCF (ofFn f)) = true := by
+  refine ⟨frontcf_wellFormed_straightline f hwt, ?_⟩
+  have h := frontcf_wellFormed_straightline f hwt
+  have hal : (lowerCF (ofFn f)).alias = [] := by rw [frontcf_conservative f hwt]; rfl
+  -- without aliases the extended certificate is the computed one
+  have hd : (deadBlockElim (lowerCF (ofFn f))).alias = [] := by
+    unfold deadBlockElim
+    cases reachable (lowerCF (ofFn f)) <;> simp [hal]
+  have hc : certA (deadBlockElim (lowerCF (ofFn f))) = computeCert (deadBlockElim (lowerCF (ofFn f))) := by
+    simp only [certA, hd, aliasGet]
+  simp only [wellFormedA, hc]
+  exact h
 
 /-! ### composition with the SSA passes -/
 
